@@ -60,6 +60,10 @@ func minimiseMoves(sc *Scenario) []move {
 	switch sc.Kind {
 	case "single":
 		return singleMoves()
+	case "batch":
+		if sc.Prop == "C03" || sc.Prop == "C11" {
+			return batchMoves()
+		}
 	}
 	return nil
 }
@@ -195,4 +199,106 @@ func minDur(a, b time.Duration) time.Duration {
 		return a
 	}
 	return b
+}
+
+
+// batchMoves shrinks a batch scenario: fewer lines, fewer projects, lower concurrency, a simpler scheduling policy,
+// coarser disk yields (fewer decisions), shorter simulated periods.
+func batchMoves() []move {
+	return []move{
+		// drop lines (largest chunks first)
+		func(sc *Scenario) []*Scenario {
+			var out []*Scenario
+			n := len(sc.Lines)
+			if n <= 1 {
+				return nil
+			}
+			for _, k := range []int{n / 2, n / 4, 1} {
+				if k < 1 {
+					continue
+				}
+				for from := 0; from+k <= n; from += k {
+					if n-k < 1 {
+						continue
+					}
+					c := cloneScenario(sc)
+					c.Lines = append(append([]BatchLine{}, sc.Lines[:from]...), sc.Lines[from+k:]...)
+					c.Sched.Decisions = nil
+					out = append(out, c)
+				}
+				if len(out) > 24 {
+					break
+				}
+			}
+			return out
+		},
+		// lower concurrency, simplest policy, coarse disk yields
+		func(sc *Scenario) []*Scenario {
+			var out []*Scenario
+			if sc.Sched.Concurrency > 2 {
+				c := cloneScenario(sc)
+				c.Sched.Concurrency = 2
+				c.Sched.Decisions = nil
+				out = append(out, c)
+			}
+			if sc.Sched.Policy != "fifo" {
+				c := cloneScenario(sc)
+				c.Sched.Policy = "fifo"
+				c.Sched.Decisions = nil
+				out = append(out, c)
+			}
+			if sc.Sched.RecordP > 1.0/300 {
+				c := cloneScenario(sc)
+				c.Sched.RecordP = 1.0 / 365
+				c.Sched.Decisions = nil
+				out = append(out, c)
+			}
+			if len(sc.Sched.Overlap) > 1 {
+				c := cloneScenario(sc)
+				c.Sched.Overlap = sc.Sched.Overlap[:1]
+				out = append(out, c)
+			}
+			return out
+		},
+		// drop projects no line uses any more (indices are re-mapped)
+		func(sc *Scenario) []*Scenario {
+			used := map[int]bool{}
+			for _, l := range sc.Lines {
+				used[l.World] = true
+			}
+			if len(used) == len(sc.Worlds) {
+				return nil
+			}
+			if _, ok := sc.Params["pless"]; ok {
+				return nil
+			}
+			c := cloneScenario(sc)
+			remap := map[int]int{}
+			var ws []*World
+			for i, w := range c.Worlds {
+				if used[i] {
+					remap[i] = len(ws)
+					ws = append(ws, w)
+				}
+			}
+			c.Worlds = ws
+			for i := range c.Lines {
+				c.Lines[i].World = remap[c.Lines[i].World]
+			}
+			return []*Scenario{c}
+		},
+		// bare soil and no management in every project
+		func(sc *Scenario) []*Scenario {
+			var out []*Scenario
+			for i, w := range sc.Worlds {
+				if len(w.Rot) > 1 && !w.BadEnt && len(w.CropAlias) == 0 {
+					c := cloneScenario(sc)
+					c.Worlds[i].Rot = c.Worlds[i].Rot[:1]
+					c.Worlds[i].Fert, c.Worlds[i].Irr, c.Worlds[i].Till = nil, nil, nil
+					out = append(out, c)
+				}
+			}
+			return out
+		},
+	}
 }
